@@ -928,5 +928,51 @@ def rule_r10(ctx) -> RuleResult:
     return rr
 
 
+def rule_r11(ctx) -> RuleResult:
+    """Optional numeric arguments default independently: `{{#explode:a/b/c|/||2}}` has an empty position *and* a valid limit.
+    When one `try` whose handler falls through (assigns a default or passes) contains the conversions of two different
+    arguments, the failure of the first conversion skips the second, and a well-formed argument is silently replaced by its
+    default.  Rule: in every registered parser function, a `try` with a fall-through ValueError handler converts at most one
+    source value."""
+    rr = RuleResult("C18.R11", "a malformed numeric argument does not discard another argument's value", min_instances=3)
+    cg = CallGraph(ctx.index)
+    conv = ("int", "float", "Decimal", "safe_int", "safe_float")
+
+    def sources(st):
+        out = set()
+        for c in ast.walk(st):
+            if isinstance(c, ast.Call) and isinstance(c.func, ast.Name) and c.func.id in conv and c.args:
+                names = sorted({n.id for n in ast.walk(c.args[0]) if isinstance(n, ast.Name)} | {unparse(n) for n in ast.walk(c.args[0]) if isinstance(n, ast.Subscript)})
+                if names:
+                    out.add(",".join(names))
+        return out
+
+    for dotted in sorted(d for d in cg.registered_parser_functions if ctx.index.has_func(d)):
+        fn = ctx.index.func(dotted)
+        for t in walk_no_nested(fn):
+            if not isinstance(t, ast.Try):
+                continue
+            falls = [h for h in t.handlers if (h.type is None or any(x in unparse(h.type) for x in ("ValueError", "Exception", "ArithmeticError", "TypeError")))
+                     and not any(isinstance(n, (ast.Return, ast.Raise, ast.Continue, ast.Break)) for st in h.body for n in ast.walk(st))]
+            if not falls:
+                continue
+            per_stmt = [(st, sources(st)) for st in t.body]
+            per_stmt = [(st, sv) for st, sv in per_stmt if sv]
+            if not per_stmt:
+                continue
+            first_src = per_stmt[0][1]
+            later = [(st, sv) for st, sv in per_stmt[1:] if sv - first_src]
+            # the later conversion matters when its target is read after the try statement
+            if later:
+                st, sv = later[0]
+                rr.bad(Finding("C18.R11", PFN, dotted, "try: {} ... {}".format(unparse(per_stmt[0][0])[:40], unparse(st)[:40]),
+                               "one try block with a fall-through handler converts `{}` and then `{}`: when the first conversion fails the "
+                               "second is never executed, so a well-formed argument is replaced by its default".format(
+                                   sorted(first_src)[0], sorted(sv - first_src)[0]), t.lineno))
+            else:
+                rr.ok(dotted, "try at line-independent key `{}` converts one source".format(unparse(per_stmt[0][0])[:40]), {"fn": dotted})
+    return rr
+
+
 def run(ctx) -> list:
-    return [rule_r1(ctx), rule_r2(ctx), rule_r3(ctx), rule_r4(ctx), rule_r5(ctx), rule_r6(ctx), rule_r7(ctx), rule_r8(ctx), rule_r9(ctx), rule_r10(ctx)]
+    return [rule_r1(ctx), rule_r2(ctx), rule_r3(ctx), rule_r4(ctx), rule_r5(ctx), rule_r6(ctx), rule_r7(ctx), rule_r8(ctx), rule_r9(ctx), rule_r10(ctx), rule_r11(ctx)]
